@@ -21,6 +21,8 @@ use vstd::std_specs::cmp::OrdSpec;
 //@map /Arc<dyn Validator>/ => VxValidator
 //@map /\.values\(\)\.sum::<u64>\(\)/ => .vx_sum()
 //@map /\bDuration\b/ => VxDuration
+//@map /UnorderedSet<&PaymentHash>/ => VxHashSet
+//@map /UnorderedSet::new\(\)/ => VxHashSet::new()
 verus! {
 
 //@@TAGS
@@ -103,14 +105,29 @@ pub open spec fn is_routed_new(n: RoutedPayment) -> bool {
     n.incoming@ == Map::<ChannelId, u64>::empty() && n.outgoing@ == Map::<ChannelId, u64>::empty()
     && n.incoming_cltv_min.is_none() && n.outgoing_cltv_max.is_none() && n.preimage.is_none()
 }
-// `hashes.extend(a.keys()); hashes.extend(b.keys()); for hash_r in hashes.iter()`: every key of either map, once
-#[verifier::external_body]
-pub fn vx_key_union(a: &VxPayMap, b: &VxPayMap) -> (r: Vec<PaymentHash>)
-    ensures
-        forall|i: int| 0 <= i < r@.len() ==> a@.contains_key(#[trigger] r@[i]) || b@.contains_key(r@[i]),
-        forall|k: PaymentHash| a@.contains_key(k) || b@.contains_key(k) ==> exists|i: int| 0 <= i < r@.len() && #[trigger] r@[i] == k,
-        forall|i: int, j: int| 0 <= i < r@.len() && 0 <= j < r@.len() && i != j ==> #[trigger] r@[i] != #[trigger] r@[j],
-{ unimplemented!() }
+// hashbrown::HashSet<&PaymentHash> (`UnorderedSet`): `new`, `extend(map.keys())`; iteration visits every element once
+#[verifier::external_body] pub struct VxHashSet { _p: u8 }
+#[verifier::external_body] pub struct VxKeys { _p: u8 }
+impl VxKeys { pub uninterp spec fn view(&self) -> Set<PaymentHash>; }
+impl VxPayMap {
+    #[verifier::external_body]
+    pub fn keys(&self) -> (r: VxKeys) ensures r@ == self@.dom() { unimplemented!() }
+}
+impl VxHashSet {
+    pub uninterp spec fn view(&self) -> Set<PaymentHash>;
+    #[verifier::external_body]
+    pub fn new() -> (r: VxHashSet) ensures r@ == Set::<PaymentHash>::empty() { unimplemented!() }
+    #[verifier::external_body]
+    pub fn extend(&mut self, k: VxKeys) ensures final(self)@ == old(self)@.union(k@) { unimplemented!() }
+    // `for hash_r in hashes.iter()`: the elements as a sequence without repetition
+    #[verifier::external_body]
+    pub fn vx_elems(&self) -> (r: Vec<PaymentHash>)
+        ensures
+            forall|i: int| 0 <= i < r@.len() ==> self@.contains(#[trigger] r@[i]),
+            forall|k: PaymentHash| self@.contains(k) ==> exists|i: int| 0 <= i < r@.len() && #[trigger] r@[i] == k,
+            forall|i: int, j: int| 0 <= i < r@.len() && 0 <= j < r@.len() && i != j ==> #[trigger] r@[i] != #[trigger] r@[j],
+    { unimplemented!() }
+}
 // min / max cltv_expiry of the HTLCs of `info` carrying `hash` (iterator chain in apply_payments; CLTV bookkeeping is
 // not part of C06's amounts): unspecified
 #[verifier::external_body]
@@ -176,6 +193,14 @@ pub open spec fn base_outgoing(m: Map<PaymentHash, RoutedPayment>, h: PaymentHas
     if m.contains_key(h) { m[h].outgoing@ } else { Map::<ChannelId, u64>::empty() }
 }
 
+// after apply_payments: the entry of hash h holds the validated per-channel amounts of channel c on top of what was there
+pub open spec fn recorded(f: Map<PaymentHash, RoutedPayment>, o: Map<PaymentHash, RoutedPayment>, c: ChannelId,
+    ins: Map<PaymentHash, u64>, outs: Map<PaymentHash, u64>, h: PaymentHash) -> bool {
+    f.contains_key(h)
+    && f[h].incoming@ == base_incoming(o, h).insert(c, sum0(ins, h) as u64)
+    && f[h].outgoing@ == base_outgoing(o, h).insert(c, sum0(outs, h) as u64)
+}
+
 // ------------------------------------------------------------------ code side
 impl RoutedPayment {
 
@@ -227,15 +252,26 @@ impl NodeState {
             forall|h: PaymentHash| incoming_payment_summary@.contains_key(h) || outgoing_payment_summary@.contains_key(h) ==>
                 #[trigger] hash_balanced(*self, validator, *channel_id, h,
                     sum0(incoming_payment_summary@, h), sum0(outgoing_payment_summary@, h)),                 //[C06.validate-payments.every-touched-hash-balanced]
-//@sub /(?s)let mut hashes: UnorderedSet<&PaymentHash> = UnorderedSet::new\(\);\s*hashes\.extend\(incoming_payment_summary\.keys\(\)\);\s*hashes\.extend\(outgoing_payment_summary\.keys\(\)\);/ => let hashes = vx_key_union(incoming_payment_summary, outgoing_payment_summary);
+//@sub /for hash_r in hashes\.iter\(\) \{/ => let vx_hs = hashes.vx_elems(); for hash_r in vx_hs.iter() {
 //@sub /let hash = \*\*hash_r;/ => let hash = *hash_r;
+//@proof before /let mut unbalanced = Vec::new\(\);/
+        proof {
+            // the set of hashes that gets checked is the union of the keys of BOTH summaries
+            assert forall|h: PaymentHash| (incoming_payment_summary@.contains_key(h) || outgoing_payment_summary@.contains_key(h))
+                <==> #[trigger] hashes@.contains(h) by { }                                                    //[C06.validate-payments.checks-keys-of-both-summaries]
+        }
 //@loop 1 iter=it
         invariant
             ledger_in_range(*self, validator, incoming_payment_summary@, outgoing_payment_summary@),
-            forall|i: int| 0 <= i < hashes@.len() ==> incoming_payment_summary@.contains_key(#[trigger] hashes@[i]) || outgoing_payment_summary@.contains_key(hashes@[i]),
+            forall|i: int| 0 <= i < vx_hs@.len() ==> incoming_payment_summary@.contains_key(#[trigger] vx_hs@[i]) || outgoing_payment_summary@.contains_key(vx_hs@[i]),
             (unbalanced@.len() == 0 && vx_strict(T_policy_routing_balanced)) ==> forall|j: int| 0 <= j < it.index@ ==>
-                #[trigger] hash_balanced(*self, validator, *channel_id, hashes@[j],
-                    sum0(incoming_payment_summary@, hashes@[j]), sum0(outgoing_payment_summary@, hashes@[j])),
+                #[trigger] hash_balanced(*self, validator, *channel_id, vx_hs@[j],
+                    sum0(incoming_payment_summary@, vx_hs@[j]), sum0(outgoing_payment_summary@, vx_hs@[j])),
+//@proof before /^\s*Ok\(\(\)\)\s*$/
+        proof {
+            assert forall|h: PaymentHash| incoming_payment_summary@.contains_key(h) || outgoing_payment_summary@.contains_key(h)
+                implies exists|i: int| 0 <= i < vx_hs@.len() && #[trigger] vx_hs@[i] == h by { assert(hashes@.contains(h)); }
+        }
 //@end
 
 //@fn vls-core/src/node.rs :: impl NodeState :: apply_payments props=C06 optclosures
@@ -243,16 +279,14 @@ impl NodeState {
     ensures
         // the ledger records, for every hash the update touches, exactly the per-channel amounts that were validated
         forall|h: PaymentHash| incoming_payment_summary@.contains_key(h) || outgoing_payment_summary@.contains_key(h) ==>
-            #[trigger] final(self).payments@.contains_key(h)
-            && final(self).payments@[h].incoming@ == base_incoming(old(self).payments@, h).insert(*channel_id, sum0(incoming_payment_summary@, h) as u64)
-            && final(self).payments@[h].outgoing@ == base_outgoing(old(self).payments@, h).insert(*channel_id, sum0(outgoing_payment_summary@, h) as u64),   //[C06.apply.records-validated-summaries]
+            #[trigger] recorded(final(self).payments@, old(self).payments@, *channel_id, incoming_payment_summary@, outgoing_payment_summary@, h),   //[C06.apply.records-validated-summaries]
         // amounts recorded for other hashes are untouched, and so are the approved invoices
         forall|h: PaymentHash| !(incoming_payment_summary@.contains_key(h) || outgoing_payment_summary@.contains_key(h)) ==>
             (#[trigger] final(self).payments@.contains_key(h) <==> old(self).payments@.contains_key(h))
             && (old(self).payments@.contains_key(h) ==> final(self).payments@[h].incoming@ == old(self).payments@[h].incoming@
                 && final(self).payments@[h].outgoing@ == old(self).payments@[h].outgoing@),                                      //[C06.apply.other-hashes-untouched]
         final(self).invoices == old(self).invoices,                                                                            //[C06.apply.invoices-untouched]
-//@sub /(?s)let mut hashes: UnorderedSet<&PaymentHash> = UnorderedSet::new\(\);\s*hashes\.extend\(incoming_payment_summary\.keys\(\)\);\s*hashes\.extend\(outgoing_payment_summary\.keys\(\)\);/ => let hashes = vx_key_union(incoming_payment_summary, outgoing_payment_summary);
+//@sub /for hash_r in hashes\.iter\(\) \{/ => let vx_hs = hashes.vx_elems(); for hash_r in vx_hs.iter() {
 //@sub /let hash = \*\*hash_r;/ => let hash = *hash_r;
 //@sub /self\.payments\.entry\(hash\)\.or_insert_with\(\|\| RoutedPayment::new\(\)\)/ => self.payments.vx_entry_or_new(hash)
 //@sub /(?s)if let Some\(issued\) = self\.issued_invoices\.get_mut\(hash\) \{\s*issued\.is_fulfilled = true;\s*\}/ => self.issued_invoices.vx_mark_fulfilled(hash);
@@ -263,26 +297,30 @@ impl NodeState {
         let ghost inv0 = self.invoices;
         let ghost ins = incoming_payment_summary@;
         let ghost outs = outgoing_payment_summary@;
-        proof { axiom_map_total_empty(); }
+        proof {
+            axiom_map_total_empty();
+            assert forall|h: PaymentHash| (ins.contains_key(h) || outs.contains_key(h)) <==> #[trigger] hashes@.contains(h) by { }
+        }
 //@loop 1 iter=it1
         invariant
             forall|h: PaymentHash| #[trigger] ins.contains_key(h) ==> ins[h] <= SAT_BOUND,
             forall|h: PaymentHash| #[trigger] outs.contains_key(h) ==> outs[h] <= SAT_BOUND,
             ins == incoming_payment_summary@, outs == outgoing_payment_summary@,
-            forall|i: int| 0 <= i < hashes@.len() ==> ins.contains_key(#[trigger] hashes@[i]) || outs.contains_key(hashes@[i]),
+            forall|i: int| 0 <= i < vx_hs@.len() ==> ins.contains_key(#[trigger] vx_hs@[i]) || outs.contains_key(vx_hs@[i]),
             forall|h: PaymentHash| #[trigger] self.payments@.contains_key(h) ==>
                 map_total(self.payments@[h].incoming@) <= SAT_BOUND && map_total(self.payments@[h].outgoing@) <= SAT_BOUND,
             forall|h: PaymentHash| #[trigger] p0.contains_key(h) ==> self.payments@.contains_key(h) && self.payments@[h] == p0[h],
             forall|h: PaymentHash| #[trigger] self.payments@.contains_key(h) && !p0.contains_key(h) ==>
                 is_routed_new(self.payments@[h]) && (ins.contains_key(h) || outs.contains_key(h)),
-            forall|j: int| 0 <= j < it1.index@ ==> self.payments@.contains_key(#[trigger] hashes@[j]),
+            forall|j: int| 0 <= j < it1.index@ ==> self.payments@.contains_key(#[trigger] vx_hs@[j]),
             self.invoices == inv0,
 //@proof before /for hash in fulfilled_issued_invoices\.iter\(\)/ #1
         let ghost pm1 = self.payments@;
         proof {
             assert forall|h: PaymentHash| ins.contains_key(h) || outs.contains_key(h) implies #[trigger] pm1.contains_key(h) by {
-                let j = choose|j: int| 0 <= j < hashes@.len() && #[trigger] hashes@[j] == h;
-                assert(pm1.contains_key(hashes@[j]));
+                assert(hashes@.contains(h));
+                let j = choose|j: int| 0 <= j < vx_hs@.len() && #[trigger] vx_hs@[j] == h;
+                assert(pm1.contains_key(vx_hs@[j]));
             }
         }
 //@proof before /let payment = self\.payments\.vx_entry_or_new\(hash\);/
@@ -295,16 +333,16 @@ impl NodeState {
             forall|h: PaymentHash| #[trigger] self.payments@.contains_key(h) <==> pm1.contains_key(h),
             forall|h: PaymentHash| #[trigger] pm1.contains_key(h) ==> self.payments@[h].incoming@ == pm1[h].incoming@
                 && self.payments@[h].outgoing@ == pm1[h].outgoing@,
-//@proof before /for hash_r in hashes\.iter\(\)/ #2
+//@proof before /let vx_hs = hashes\.vx_elems\(\);/ #2
         let ghost mut done = Set::<PaymentHash>::empty();
 //@loop 4 iter=it4
         invariant
             self.invoices == inv0,
             ins == incoming_payment_summary@, outs == outgoing_payment_summary@,
-            forall|i: int| 0 <= i < hashes@.len() ==> ins.contains_key(#[trigger] hashes@[i]) || outs.contains_key(hashes@[i]),
-            forall|i: int, j: int| 0 <= i < hashes@.len() && 0 <= j < hashes@.len() && i != j ==> #[trigger] hashes@[i] != #[trigger] hashes@[j],
-            forall|j: int| 0 <= j < it4.index@ ==> done.contains(#[trigger] hashes@[j]),
-            forall|j: int| it4.index@ <= j < hashes@.len() ==> !done.contains(#[trigger] hashes@[j]),
+            forall|i: int| 0 <= i < vx_hs@.len() ==> ins.contains_key(#[trigger] vx_hs@[i]) || outs.contains_key(vx_hs@[i]),
+            forall|i: int, j: int| 0 <= i < vx_hs@.len() && 0 <= j < vx_hs@.len() && i != j ==> #[trigger] vx_hs@[i] != #[trigger] vx_hs@[j],
+            forall|j: int| 0 <= j < it4.index@ ==> done.contains(#[trigger] vx_hs@[j]),
+            forall|j: int| it4.index@ <= j < vx_hs@.len() ==> !done.contains(#[trigger] vx_hs@[j]),
             forall|h: PaymentHash| #[trigger] done.contains(h) ==> ins.contains_key(h) || outs.contains_key(h),
             forall|h: PaymentHash| ins.contains_key(h) || outs.contains_key(h) ==> #[trigger] pm1.contains_key(h),
             forall|h: PaymentHash| #[trigger] self.payments@.contains_key(h) <==> pm1.contains_key(h),
@@ -314,6 +352,16 @@ impl NodeState {
 //@proof blockend /payment\.apply\(/
             proof { done = done.insert(hash); }
 //@sub /(?s)let \(incoming_cltv, outgoing_cltv\) = if let Some\(info\) = commit_info \{.*?\} else \{\s*\(None, None\)\s*\};/ => let (incoming_cltv, outgoing_cltv) = vx_cltv_of(commit_info, &hash);
+//@proof blockend /let mut fulfilled_issued_invoices = Vec::new\(\);/
+        proof {
+            assert forall|h: PaymentHash| ins.contains_key(h) || outs.contains_key(h) implies
+                #[trigger] recorded(self.payments@, p0, *channel_id, ins, outs, h) by {
+                assert(hashes@.contains(h));
+                let j = choose|j: int| 0 <= j < vx_hs@.len() && #[trigger] vx_hs@[j] == h;
+                assert(done.contains(vx_hs@[j]));
+                assert(pm1.contains_key(h));
+            }
+        }
 //@end
 
 } // impl NodeState
